@@ -398,6 +398,6 @@ func firstSeg(s string) string {
 func init() {
 	profiles["C19"] = map[string]int{"ins": 30, "del": 8, "persist": 8, "rootcheck": 10, "bulk": 3, "fork": 1}
 	propTable["C19"] = PropInfo{Engine: "history", Level: "fault_enumeration", QuickS: 20, ThorS: 420,
-		Rule: "one evaluation = one seeded history ending in rootcheck ops; each rootcheck enumerates, for one persisted root, every perturbation kind (unknown format x3, top node missing / load error, empty bytes, every sampled truncation rejected by the independent decoder, oversized length prefix or JSON garbage, crafted nodes with link/value count mismatch, swapped and duplicate keys at front and back, reversed and constant loader KeyCompare, recorded height / branch factor under which a top key's independently computed layer is below the height) and demands an error from LoadMast; non-trivial = at least one perturbed load judged; distinct = hash of (config, op sequence)",
+		Rule: "one evaluation = one seeded history ending in rootcheck ops; each rootcheck enumerates, for one persisted root, every perturbation kind (unknown format names incl. version-like ones, the other known format's name or none for these bytes, truncation at the structural boundaries of a binary node, count and length fields no buffer can satisfy, a loader comparator coarser than the writer's, unknown format x3, top node missing / load error, empty bytes, every sampled truncation rejected by the independent decoder, oversized length prefix or JSON garbage, crafted nodes with link/value count mismatch, swapped and duplicate keys at front and back, reversed and constant loader KeyCompare, recorded height / branch factor under which a top key's independently computed layer is below the height) and demands an error from LoadMast; non-trivial = at least one perturbed load judged; distinct = hash of (config, op sequence)",
 	}
 }
